@@ -152,6 +152,18 @@ class PySeq(list):
         return PySeq(r) if isinstance(i, slice) else r
 
 
+class PyTuple(PySeq):
+    """A python TUPLE (tuple display, shape, element of product / combinations / zip): used as a subscript it is one index
+    per axis, whereas a python list used as a subscript selects along the first axis."""
+
+    def __add__(self, other):
+        return PyTuple(list(self) + list(other)) if isinstance(other, PyTuple) else PySeq(list(self) + list(other))
+
+    def __getitem__(self, i):
+        r = list.__getitem__(self, i)
+        return PyTuple(r) if isinstance(i, slice) else r
+
+
 def truth(t) -> bool:
     """Truth value of an evaluated condition; Unfoldable where python / torch would not give one."""
     if isinstance(t, PySeq):
@@ -543,7 +555,7 @@ class Folder:
                 return node.value
             raise Unfoldable(f"constant {node.value!r}")
         if isinstance(node, (ast.List, ast.Tuple)):
-            out = PySeq()
+            out = PyTuple() if isinstance(node, ast.Tuple) else PySeq()
             for e in node.elts:
                 if isinstance(e, ast.Starred):
                     t = self.fold(e.value)
@@ -667,7 +679,7 @@ class Folder:
                 while isinstance(v, list):
                     dims.append(len(v))
                     v = v[0] if v else None
-                return PySeq(dims)
+                return PyTuple(dims)
             if node.attr in ("T", "mT"):
                 v = self.fold(node.value)
                 if isinstance(v, list) and _depth(v) > 2:
@@ -723,9 +735,11 @@ class Folder:
                 seq_, cnt_ = (a, b) if isinstance(a, PySeq) else (b, a)
                 if cnt_ > 4096:
                     raise Unfoldable("sequence repetition too long")
-                return PySeq(list(seq_) * max(cnt_, 0))  # python sequence repetition, not element-wise product
+                return type(seq_)(list(seq_) * max(cnt_, 0))  # python sequence repetition, not element-wise product
             if isinstance(node.op, ast.Add) and isinstance(a, PySeq) and isinstance(b, PySeq):
-                return PySeq(list(a) + list(b))
+                if isinstance(a, PyTuple) != isinstance(b, PyTuple):
+                    raise Unfoldable("concatenation of a list and a tuple")
+                return a + b  # tuple + tuple is a tuple, list + list a list
             f = ops.get(type(node.op))
             if isinstance(a, BoolList) and isinstance(b, BoolList) and isinstance(node.op, (ast.Add, ast.Sub, ast.Mult, ast.Div, ast.Pow, ast.Mod, ast.FloorDiv)):
                 raise Unfoldable("arithmetic between two boolean tensors (torch keeps the boolean type: + is OR, * is AND, - is an error)")
@@ -867,7 +881,7 @@ class Folder:
                     return base[lo:hi:st_]
                 raise Unfoldable("slice")
             i = self.fold(sl)
-            if isinstance(i, PySeq) and not isinstance(sl, (ast.List, ast.ListComp)) and isinstance(base, list) and not isinstance(base, PySeq) and all(isinstance(t_, int) and not isinstance(t_, bool) for t_ in i):
+            if isinstance(i, PyTuple) and not isinstance(sl, ast.Tuple) and isinstance(base, list) and not isinstance(base, PySeq) and all(isinstance(t_, int) and not isinstance(t_, bool) for t_ in i):
                 # a python tuple of integers held in a variable: one index per axis (t[pos]; the empty tuple gives t itself)
                 cur_ = base
                 for t_ in i:
@@ -1745,7 +1759,7 @@ class Folder:
                 seq_, r_ = self.fold(node.args[0]), self.fold(node.args[1] if len(node.args) == 2 else node.keywords[0].value)
                 if not isinstance(seq_, list) or not isinstance(r_, int) or isinstance(r_, bool) or len(seq_) > 24:
                     raise Unfoldable("combinations")
-                return PySeq(PySeq(c_) for c_ in _it.combinations(seq_, r_))
+                return PySeq(PyTuple(c_) for c_ in _it.combinations(seq_, r_))
             if nm in ("itertools.product", "product") and node.args and all(k.arg == "repeat" for k in node.keywords):
                 import itertools as _it
 
@@ -1766,7 +1780,7 @@ class Folder:
                     total_ *= max(len(q_), 1)
                 if total_ ** max(rep_, 1) > 100000:
                     raise Unfoldable("product too long")
-                return PySeq(PySeq(c_) for c_ in _it.product(*seqs_, repeat=rep_))
+                return PySeq(PyTuple(c_) for c_ in _it.product(*seqs_, repeat=rep_))
             if nm in ("itertools.chain.from_iterable", "chain.from_iterable") and len(node.args) == 1:
                 outer = self.fold(node.args[0])
                 if not isinstance(outer, list) or not all(isinstance(q, list) for q in outer):
@@ -1776,7 +1790,7 @@ class Folder:
                 seqs = [self.fold(a) for a in node.args]
                 if not all(isinstance(q, (list, str)) for q in seqs):
                     raise Unfoldable("zip of a non-sequence")
-                return PySeq(PySeq(t_) for t_ in zip(*seqs))
+                return PySeq(PyTuple(t_) for t_ in zip(*seqs))
             if nm in ("any", "all") and len(node.args) == 1 and not node.keywords and isinstance(node.args[0], (ast.GeneratorExp, ast.ListComp)):
                 vals = self.fold(node.args[0])
                 return (any if nm == "any" else all)(truth(v_) for v_ in vals)
@@ -1788,7 +1802,7 @@ class Folder:
             if nm == "tuple" and len(node.args) == 1 and not node.keywords:
                 v = self.fold(node.args[0])
                 if isinstance(v, list):
-                    return PySeq(v)
+                    return PyTuple(v)
                 raise Unfoldable("tuple of a non-sequence")
             if nm in ("bin", "len", "reversed", "list", "str") and len(node.args) == 1 and not node.keywords:
                 v = self.fold(node.args[0])
